@@ -59,6 +59,8 @@ def _run(tape, clock):
     spec = R.gen_service(tape, run, max_steps=10, threads=False)
     R.fill_outcomes(tape, run, spec)
     spec.op.params = {'sampling_rate': samp[1], 'ignore_enforced_sampling': ignore_forced}
+    if tape.draw(5) == 4:
+        spec.op.extractor = 'discards'      # the metadata extractor (called during finalisation) asks for a discard
     io = [s for s in R.flat_steps(spec.body) if s[0] in ('in', 'out')]
     run.config = {'io_steps': [s[0] for s in io]}
     placed = []
@@ -96,6 +98,8 @@ def _run(tape, clock):
         # ---- saved only if allowed by the model
         f = run.faults
         discarded = any(f.get(k) for k in ('key_unbuildable', 'handler_raises', 'discard', 'discard_in_body'))
+        if f.get('discard_in_extractor'):
+            run.probe('discard_requested_during_finalisation')
         forced = (f.get('force_sample') or f.get('force_in_body')) and not ignore_forced
         sampled = bool(forced) or samp[1] >= 1 or (samp[2] is not None and samp[2] <= samp[1])
         expect = 'abort' if discarded else ('save' if sampled else 'abort')
